@@ -242,9 +242,22 @@ static int print_f(void (*printchar_handler)(void *d, int c),
     int pc, i, ch, len, prefix_len, postfix_len, pad_count, sign_count,
         zero_left, letter_base;
 
-    if (isnan(r))
+    if (isnan(r) || isinf(r))
     {
-        r = 0.0;
+        /* [-]inf / [-]nan (INF / NAN for the upper case conversions), padded
+         * with spaces only; the digit loops below never end for an infinity */
+        const char *txt = isnan(r) ? (ops & OPS_SPEC_UPPER_CASE ? "NAN" : "nan")
+                                   : (ops & OPS_SPEC_UPPER_CASE ? "INF" : "inf");
+        len = 0;
+        if (signbit(r))
+            buff[len++] = '-';
+        else if (ops & OPS_FLAG_WITH_SIGN)
+            buff[len++] = '+';
+        else if (ops & OPS_FLAG_EXTRA_SPACE)
+            buff[len++] = ' ';
+        memcpy(&buff[len], txt, 3);
+        return print_sn(
+            printchar_handler, printchar_data, buff, len + 3, width, ops);
     }
 
     postfix = end = str = &buff[0] + sizeof buff / sizeof buff[0] - 1;
